@@ -43,7 +43,7 @@ func suiteRepeat(c *Ctx) error {
 	}
 	reps := 3
 	if c.Tier == "thorough" {
-		reps = 30
+		reps = 12
 	}
 	r := NewRng(c.Seed)
 	nTrees := 1
